@@ -1188,6 +1188,24 @@ pub fn run_c06(tier: Tier) -> ! {
             }
         }
     }
+    // other baud rates (9600 baud, 1.5 and 12 Mbit/s; thorough: also 500 kbit/s and 93.75 kbit/s) at the minimum
+    // slot time of the rate, clock origins below zero and near 2^32 us, polls repeated at the same instant
+    {
+        let rings: Vec<Vec<u8>> = tier.pick(vec![vec![1, 2], vec![0, 3, 5]], vec![vec![1, 2], vec![0, 3, 5], vec![0, 5], vec![1, 3, 4]]);
+        for addrs in rings {
+            for phases in [vec![0i64, 1, 2], vec![0, 0, 0]] {
+                for deaf in [false, true] {
+                    for baud in tier.pick(vec![0usize, 3, 4], vec![0, 3, 4, 2, 7]) {
+                        scenarios.push(Scenario { addrs: addrs.clone(), hsa: 6, gap: 1, baud, slot_bits: crate::w2::MIN_SLOT[baud], ttr: None, divs: vec![16], phases: phases.clone(), deaf, loads: vec![Load::None], late: vec![], responders: vec![], origin: 0, repoll: 0, endurance: 1 });
+                    }
+                    for origin in [-3_600_000_000i64, (1i64 << 32) - 2_000_000] {
+                        scenarios.push(Scenario { addrs: addrs.clone(), hsa: 6, gap: 1, baud: 1, slot_bits: 300, ttr: None, divs: vec![16], phases: phases.clone(), deaf, loads: vec![Load::None], late: vec![], responders: vec![], origin, repoll: 0, endurance: 1 });
+                    }
+                    scenarios.push(Scenario { addrs: addrs.clone(), hsa: 6, gap: 1, baud: 1, slot_bits: 300, ttr: None, divs: vec![16], phases: phases.clone(), deaf, loads: vec![Load::None], late: vec![], responders: vec![], origin: 0, repoll: 2, endurance: 1 });
+                }
+            }
+        }
+    }
     if tier == Tier::Thorough {
         // short slot time and a fine poll grid (Tslot/52 = 100 µs at 19.2 kbit/s), HSA 10
         for deaf in [false, true] {
@@ -1199,10 +1217,10 @@ pub fn run_c06(tier: Tier) -> ! {
         }
     }
     if let Ok(x) = std::env::var("PBMC_C06_EXPERIMENT") {
-        // (development aid) only the scenarios of an experiment: "addrs;hsa;slot;div"
+        // (development aid) only the scenarios of an experiment: "addrs;hsa;slot;div;gap;deaf;s|e;baud index"
         let f: Vec<&str> = x.split(';').collect();
         let addrs: Vec<u8> = f[0].split(',').map(|a| a.parse().unwrap()).collect();
-        scenarios = vec![Scenario { addrs, hsa: f[1].parse().unwrap(), gap: f.get(4).map(|g| g.parse().unwrap()).unwrap_or(1), baud: 1, slot_bits: f[2].parse().unwrap(), ttr: None, divs: vec![f[3].parse().unwrap()], phases: if f.get(6) == Some(&"s") { vec![0, 1, 2] } else { vec![0, 0, 0] }, deaf: f.get(5).map(|d| *d == "1").unwrap_or(false), loads: vec![Load::None], late: vec![], responders: vec![], origin: 0, repoll: 0, endurance: 1 }];
+        scenarios = vec![Scenario { addrs, hsa: f[1].parse().unwrap(), gap: f.get(4).map(|g| g.parse().unwrap()).unwrap_or(1), baud: f.get(7).map(|g| g.parse().unwrap()).unwrap_or(1), slot_bits: f[2].parse().unwrap(), ttr: None, divs: vec![f[3].parse().unwrap()], phases: if f.get(6) == Some(&"s") { vec![0, 1, 2] } else { vec![0, 0, 0] }, deaf: f.get(5).map(|d| *d == "1").unwrap_or(false), loads: vec![Load::None], late: vec![], responders: vec![], origin: 0, repoll: 0, endurance: 1 }];
     }
     let tally = Tally::new();
     scenarios.par_iter().for_each(|sc| {
